@@ -26,7 +26,9 @@ ASSUMPTIONS = [
 
 TEXTS = [
     "a", " ", "\n", "<div>", "</div>", "<p class='x'>", "é", "日本", "&amp;", "%", "100%", "<", ">", "<!-- c -->", "</header>", "<head>", "<body>",
-    "</ head>", "</bodyx>", "<!--_RENDERED x,1,, -->", "<!-- RENDERED a,b,, -->", "<!-- _RENDERED -->", '<link name="CSS_PLACEHOLDERS">',
+    "</ head>", "</bodyx>", "<!--_RENDERED x,1,, -->", "<!-- RENDERED a,b,, -->", "<!-- _RENDERED -->",
+    # comments that match the marker pattern but are not markers of a rendered component: not ours to remove
+    "<!-- _RENDERED foo -->", "<!-- _RENDERED a,b -->", "<!-- _RENDERED NoSuchComp_123abc,a1B2c3,, -->", "<!--  _RENDERED\té,1,zz,  -->", '<link name="CSS_PLACEHOLDERS">',
     '<link name="CSS_PLACEHOLDER" >', '<script name="JS_PLACEHOLDER"> </script>', '<link name="css_placeholder">', "<script>1</script>",
     "<style>a{}</style>", "{{ x }}", "{% y %}", "\\", "\x00", " ", "</html>", "<template djc-render-id=\"abc123\"></template>", "data-djc-id-a1b2c3",
 ]
